@@ -151,7 +151,8 @@ def updateNext (s : St) (j : Nat) : R :=
   | .recurring p =>
     if !b.linked then (s, some .notLinked) else
     -- the first query anchors an interval without start; the test double counts its calls
-    let s := s.setJob j { b with kind := .recurring (p.anchorAt s.now), calls := b.calls + 1 }
+    let p := p.anchorAt s.now
+    let s := s.setJob j { b with kind := .recurring p, calls := b.calls + 1 }
     if b.trigFail.contains b.calls then (s, some .triggerFailed) else
     match getNext s.env p s.now with
     | .error e => (s, some e)
